@@ -8,21 +8,24 @@ SPEC = {
     # thorough tier: coverage-guided campaign over the same generator + oracle (rapid.MakeFuzz)
     "fuzz": [{"name": "FuzzModel", "seconds": 90}],
     "rule": ("rapid-generated ammo models (1-8 entries: method, RFC 3986 path+query, ordered unique headers, binary/empty/newline- and "
-             "'['-bearing bodies, tags with inner spaces and special characters, Host; in-file [Header: value] directives at generated "
+             "'['-bearing bodies, tags with inner single spaces, runs of several spaces, tabs and special characters - never at the ends -, Host; in-file [Header: value] directives at generated "
              "positions for uri/uripost) rendered into uri / uripost / raw / http-json with layout knobs (blank lines, leading/trailing "
              "blanks, CRLF, missing final newline, padded lines, inline `uris`, JSON lines / pretty / array) and read for 1-3 passes "
              "through the real provider built by config.DecodeAndValidate on a mem fs. Non-trivial = >= 2 entries and (a layout knob on, "
              "or a directive after the first entry, or a binary body); distinct = hash of the case."),
     "floors": {"TestDecode/no_final_newline": 0.1, "TestDecode/uripost_zero_body": 0.08, "TestDecode/mid_file_directive": 0.15,
                "TestDecode/json_array": 0.02, "TestDecode/json_pretty": 0.02, "TestDecode/crlf": 0.05, "TestDecode/multi_pass": 0.4,
-               "TestDecode/uripost_last_line_unterminated": 0.002},
+               "TestDecode/uripost_last_line_unterminated": 0.002,
+               "TestDecode/tag_inner_blank_run": 0.15, "TestDecode/tag_inner_tab": 0.08,
+               "TestDecode/tag_inner_blank_run_uri": 0.03, "TestDecode/tag_inner_blank_run_uripost": 0.03,
+               "TestDecode/tag_inner_blank_run_raw": 0.03, "TestDecode/tag_inner_blank_run_jsonline": 0.03},
     "manifest": {
         "technique": "model-based property testing (rapid): render a generated request model into each ammo format, decode with the real provider, compare; metamorphic over layout",
         "text": ("Each generated model is the oracle for the file rendered from it: the k-th delivered ammo must equal entry k mod E "
                  "(method, request URI, body bytes, tag, Host, effective headers with in-file directives applied in order and forgotten "
                  "at each pass), exactly passes*E items are delivered, then end of ammo and Run returns nil. Layout variants of the same "
                  "model must not change anything."),
-        "note": ("URIs are restricted to characters net/url transmits verbatim; tags do not start/end with blanks; http/json bodies are "
+        "note": ("URIs are restricted to characters net/url transmits verbatim; tags do not start/end with blanks (the one space after the URI / size delimits the tag, everything after it up to the trimmed line end is tag text, as is a JSON string); http/json bodies are "
                  "valid UTF-8; header names compared canonically; Content-Length may appear in raw requests."),
     },
     "assumptions": ["entries a format cannot express are not generated for it (uri: GET without body; uripost: POST; raw/json: no in-file directives)"],
